@@ -27,7 +27,7 @@ import (
 
 type chain struct {
 	id      string                 // "m" = main chain, "f" = the alternative chain sharing a prefix with it
-	pattern string                 // 'T' = block with a transaction, 'E' = empty block
+	pattern string                 // 'T' = block with a transaction, 'E' = empty block, 'B' = block with one big transaction (bigPayload bytes of data)
 	hdr     []*types.Header        // hdr[i] = header number i (hdr[0] = the local head the sync starts from)
 	txs     [][]*types.Transaction // txs[i] = body of block i
 	num     map[common.Hash]uint64 // header hash -> number
@@ -38,6 +38,20 @@ type chain struct {
 
 func mkTx(n uint64) *types.Transaction {
 	return types.NewTransaction(n, common.BytesToAddress([]byte{0xc1, byte(n)}), big.NewInt(int64(n)), 21000, big.NewInt(1), nil)
+}
+
+// bigPayload: data bytes of the transaction of a 'B' block.  Only its SIZE
+// matters: queue.Results feeds the size of every result it hands out into the
+// moving average resultSize, from which resultSlots derives how many leading
+// slots of the result cache the memory cap (blockCacheMemory) allows.
+const bigPayload = 20000
+
+func mkBigTx(n uint64) *types.Transaction {
+	data := make([]byte, bigPayload)
+	for i := range data {
+		data[i] = byte(n) + byte(i)
+	}
+	return types.NewTransaction(n, common.BytesToAddress([]byte{0xc1, 0xb1, byte(n)}), big.NewInt(int64(n)), 21000, big.NewInt(1), data)
 }
 
 func mkHeader(n uint64, parent common.Hash, body []*types.Transaction, extra byte) *types.Header {
@@ -56,6 +70,8 @@ func mkChain(pattern string) *chain {
 		var body []*types.Transaction
 		if pattern[i-1] == 'T' {
 			body = []*types.Transaction{mkTx(uint64(i))}
+		} else if pattern[i-1] == 'B' {
+			body = []*types.Transaction{mkBigTx(uint64(i))}
 		}
 		h := mk(uint64(i), c.hdr[i-1].Hash(), body, 0)
 		c.hdr = append(c.hdr, h)
@@ -90,6 +106,8 @@ func mkFork(main *chain, shared uint64, pattern string) *chain {
 		var body []*types.Transaction
 		if pattern[i-1] == 'T' {
 			body = []*types.Transaction{mkTx(100 + i)}
+		} else if pattern[i-1] == 'B' {
+			body = []*types.Transaction{mkBigTx(100 + i)}
 		}
 		h := mkHeader(i, c.hdr[i-1].Hash(), body, 2)
 		c.hdr = append(c.hdr, h)
@@ -132,6 +150,7 @@ type config struct {
 	caps    []int // request sizes offered to ReserveBodies
 	cache   int   // blockCacheItems
 	extra   bool  // Revoke / Cancel / adversarial Schedule ops
+	mem     int   // blockCacheMemory while this configuration runs (0 = the production value, 64 MiB: the memory cap can never bind)
 
 	// consecutive sync cycles on the same queue and peer set (0/1 = a single cycle)
 	cycles int
@@ -151,6 +170,9 @@ func (c config) first() uint64 {
 
 func (c config) String() string {
 	s := fmt.Sprintf("chain=%s peers=%d caps=%v window=%d", c.pattern, c.peers, c.caps, c.cache)
+	if c.mem > 0 {
+		s += fmt.Sprintf(" memory-cap=%dB big-tx=%dB", c.mem, bigPayload)
+	}
 	if c.multi() {
 		s += fmt.Sprintf(" cycles=%d first-origin=%d fork=%s sharing 1..%d extra=%v", c.cycles, c.first(), c.alt, c.shared, c.extra)
 	}
@@ -162,6 +184,9 @@ func (c config) sysName() string {
 	if c.multi() {
 		return fmt.Sprintf("queue%d-%s-o%d-%s@%d-%dp", c.cycles, c.pattern, c.first(), c.alt, c.shared, c.peers)
 	}
+	if c.mem > 0 {
+		return fmt.Sprintf("queue-%s-%dp-mem%d", c.pattern, c.peers, c.mem)
+	}
 	return fmt.Sprintf("queue-%s-%dp", c.pattern, c.peers)
 }
 
@@ -169,6 +194,9 @@ func (c config) sysName() string {
 func (c config) space() string {
 	if c.multi() {
 		return fmt.Sprintf("%s/%d/%s@%d/%d", c.pattern, c.first(), c.alt, c.shared, c.peers)
+	}
+	if c.mem > 0 {
+		return fmt.Sprintf("%s/mem%d", c.pattern, c.mem)
 	}
 	return c.pattern
 }
@@ -320,8 +348,10 @@ func nums(ns []uint64) string {
 // Why merged states have the same futures: these are all the fields the
 // body-download methods of queue/peerConnection/PeerSet read, except
 // (a) request.Time - expiry is an explicit op that sets it, (b) resultSize -
-// only used when len(resultCache)*resultSize exceeds 64 MiB, impossible with a
-// window of a few slots, (c) peer throughput/rtt - only feed BlockCapacity,
+// only used when len(resultCache)*resultSize exceeds blockCacheMemory: with the
+// production value of 64 MiB impossible for a window of a few slots; in the
+// configurations that lower the cap (cfg.mem > 0) resultSize IS in the key (to
+// 1/1000 byte) together with the slot limit derived from it, (c) peer throughput/rtt - only feed BlockCapacity,
 // which the driver replaces by an explicit request-size parameter, (d) task
 // priorities = -number, a function of the header.
 func (s *Sys) refresh() downloader.VerifQueueDump {
@@ -331,6 +361,10 @@ func (s *Sys) refresh() downloader.VerifQueueDump {
 	if s.cfg.multi() {
 		// the cycle: its number, origin and chain (the oracles of a cycle are relative to these)
 		fmt.Fprintf(&b, "y%d s%d k%s ", s.cyc, s.org, s.ch.id)
+	}
+	if s.cfg.mem > 0 {
+		// what decides the memory-capped part of the window
+		fmt.Fprintf(&b, "z%.3f L%d ", s.q.ResultSize(), s.q.ResultLimit())
 	}
 	fmt.Fprintf(&b, "n%d g%d o%d h%d|Q%s|T%s|", s.next, s.got, d.Offset, s.numAny(d.Head), nums(d.TaskQueue), nums(d.TaskPool))
 	done := make([]uint64, 0, len(d.Done))
@@ -525,6 +559,12 @@ func (s *Sys) Enabled() []string {
 			if len(cur) >= 2 {
 				ops = append(ops, "deliver("+p.id+",wrong2)")
 			}
+			// a non-empty packet of EMPTY bodies (requests only ever hold non-empty
+			// blocks: ReserveBodies completes empty ones itself)
+			ops = append(ops, "deliver("+p.id+",hollow)")
+			if len(cur) >= 2 {
+				ops = append(ops, "deliver("+p.id+",hollow2)")
+			}
 		}
 		if p.prev != nil {
 			ops = append(ops, "deliver("+p.id+",stale)")
@@ -661,6 +701,9 @@ func (s *Sys) Apply(op string) string {
 		d := s.refresh()
 		s.checkSlots(d, op)
 		s.checkLost(d, op)
+		if s.cfg.mem > 0 {
+			s.noteMemCap(d, op)
+		}
 		if opKind(op) == "cycle" {
 			s.checkCycleStart(d, op)
 		}
@@ -836,6 +879,15 @@ func (s *Sys) apply(op string) string {
 		case "wrong2":
 			lists = s.bodies(cur)
 			lists[1] = s.ch.bogus
+		case "hollow": // as many bodies as requested, each an empty transaction list
+			for range cur {
+				lists = append(lists, []*types.Transaction{})
+			}
+			s.noteHollow(cur)
+		case "hollow2": // genuine bodies, the second replaced by an empty transaction list
+			lists = s.bodies(cur)
+			lists[1] = []*types.Transaction{}
+			s.noteHollow(cur[1:2])
 		case "stale":
 			for _, n := range p.prev {
 				lists = append(lists, p.prevCh.txs[n])
@@ -1031,6 +1083,65 @@ func (s *Sys) apply(op string) string {
 	panic("harness: unknown op " + op)
 }
 
+// noteMemCap: vacuity counters of the configurations with a lowered memory cap:
+// was the cap binding (slot limit below the window), were there complete results
+// in slots beyond the limit, together with a missing block inside it that nobody
+// is fetching (the state in which only the first `limit` slots may be counted as
+// finished, or nothing is handed out any more), was the download throttled then.
+func (s *Sys) noteMemCap(d downloader.VerifQueueDump, op string) {
+	limit := s.q.ResultLimit()
+	if limit >= len(d.Cache) {
+		s.count("memcap_transitions_into_a_state_with_the_cap_not_binding", 1)
+		return
+	}
+	s.count(fmt.Sprintf("memcap_transitions_into_a_state_with_slot_limit_%d_of_%d", limit, len(d.Cache)), 1)
+	if opKind(op) == "results" {
+		s.count("memcap_results_after_which_the_cap_binds", 1)
+	}
+	inflight := map[uint64]bool{}
+	for _, ns := range d.Pend {
+		for _, n := range ns {
+			inflight[n] = true
+		}
+	}
+	doneBeyond, holeInside := 0, 0
+	for i, sl := range d.Cache {
+		switch {
+		case i >= limit && !sl.Nil && sl.Pending <= 0:
+			doneBeyond++
+		case i < limit && (sl.Nil || sl.Pending > 0) && !inflight[d.Offset+uint64(i)] && d.Offset+uint64(i) < s.next:
+			holeInside++
+		}
+	}
+	if doneBeyond > 0 {
+		s.count("memcap_states_with_complete_results_beyond_the_slot_limit", 1)
+	}
+	if doneBeyond > 0 && holeInside > 0 {
+		s.count("memcap_states_with_complete_results_beyond_the_limit_and_an_unfetched_block_inside_it", 1)
+		if s.q.ShouldThrottleBlocks() {
+			s.count("memcap_such_states_throttled", 1)
+		} else {
+			s.count("memcap_such_states_not_throttled", 1)
+		}
+	}
+	if s.q.ShouldThrottleBlocks() {
+		s.count("memcap_states_throttled_while_the_cap_binds", 1)
+	}
+}
+
+// noteHollow: vacuity counters of the "empty body for a non-empty block" lie, and
+// a harness check of the premise that a request never asks for an empty block
+// (an empty list would be the RIGHT body there, the delivery kind would not be a lie).
+func (s *Sys) noteHollow(hollow []uint64) {
+	for _, n := range hollow {
+		if s.ch.pattern[n-1] == 'E' {
+			s.count("hollow_delivery_for_a_request_holding_an_empty_block", 1)
+			return
+		}
+	}
+	s.count("hollow_delivery_every_empty_body_stands_for_a_non_empty_block", 1)
+}
+
 func errClass(err error) string {
 	switch err {
 	case nil:
@@ -1089,7 +1200,7 @@ func (s *Sys) checkSlots(d downloader.VerifQueueDump, op string) {
 			s.viols = append(s.viols, mc.Violation{
 				Sig:    "body with mismatching tx root accepted (" + opShape(op) + ")",
 				Detail: fmt.Sprintf("after %s the result slot of block %d holds %d transactions hashing to %x, the header wants %x", op, n, len(sl.Txs), types.DeriveSha(sl.Txs).Bytes()[:4], s.ch.hdr[n].TxHash[:4])})
-		} else if sl.Pending <= 0 && !sl.HasTxs && s.ch.pattern[n-1] == 'T' {
+		} else if sl.Pending <= 0 && !sl.HasTxs && s.ch.pattern[n-1] != 'E' {
 			s.viols = append(s.viols, mc.Violation{Sig: "result slot complete without a body for a non-empty block", Detail: fmt.Sprintf("after %s: block %d", op, n)})
 		}
 	}
